@@ -80,6 +80,8 @@ type parent struct {
 	keyed  map[string]int64  // outcome classes of the enumerated key-aware grid
 
 	builtPlugin string
+	plugTags    map[string]int64 // coverage cells of the enumerated plugin-reply family that ran
+	sessions    int64            // plugin processes started by children
 }
 
 const maxSameDeaths = 6
@@ -215,6 +217,15 @@ func (p *parent) merge(t *target, j job, e *childEnd, countEvals bool) {
 	if j.Kind == "enc" && countEvals {
 		ts.EncEvals += s.Evals
 	}
+	if j.Kind == "plug" {
+		if p.plugTags == nil {
+			p.plugTags = map[string]int64{}
+		}
+		for k, n := range s.Tags {
+			p.plugTags[k] += n
+		}
+	}
+	p.sessions += s.Sessions
 	ts.ScryptMetered += s.ScryptCalls
 	if s.SlowestUS > ts.SlowestUS {
 		ts.SlowestUS = s.SlowestUS
@@ -489,6 +500,11 @@ func main() {
 			break
 		}
 	}
+	// hostile plugin replies: one plugin process per case
+	plugT := targetByName("PluginReplies")
+	for off, n := 0, len(plugFamily()); off < n; off += 96 {
+		units = append(units, unit{plugT, job{Kind: "plug", From: off, To: min(off+96, n)}})
+	}
 	// the text-encodings family, enumerated completely for every target that takes text
 	for _, t := range targets {
 		for off, n := 0, encCount(t); off < n; off += 3000 {
@@ -499,6 +515,7 @@ func main() {
 		p.runRange(exe, units[i].t, units[i].j, nil, true)
 	})
 	p.bomGuard()
+	p.plugGuard()
 	r.Count("quick_inputs", r.Evals())
 	p.keyedGuard()
 	if !p.limitOK {
@@ -545,8 +562,8 @@ func main() {
 	if p.builtPlugin != "" {
 		os.Remove(p.builtPlugin)
 	}
-	r.MinEvals = int64(len(targets)) * 15000
-	r.MinDistinct = len(targets) * 8000
+	r.MinEvals = int64(len(targets)-1) * 15000
+	r.MinDistinct = (len(targets) - 1) * 8000
 	r.Finish()
 }
 
@@ -690,4 +707,30 @@ func (p *parent) bomGuard() {
 		}
 	}
 	p.r.Count("inputs_starting_with_utf8_or_utf16_bom", total)
+}
+
+// plugGuard is the vacuity guard of the hostile-plugin-replies family: every
+// command the client interprets must have been sent, in a session that really
+// ran, with every index spelling in each index position it has, in both state
+// machines.
+func (p *parent) plugGuard() {
+	p.mu.Lock()
+	defer p.mu.Unlock()
+	p.r.Count("plugin_sessions", p.sessions)
+	exp := expectedPlugTags()
+	missing := 0
+	first := ""
+	for _, t := range exp {
+		if p.plugTags[t] == 0 {
+			missing++
+			if first == "" {
+				first = t
+			}
+		}
+	}
+	p.r.Set("plugin_reply_cells", map[string]any{"expected_command_position_spelling_cells": len(exp), "missing": missing,
+		"cells_run": len(p.plugTags), "index_spellings": indexSpellings, "commands": replyCommands, "error_kinds": errorKinds})
+	if missing > 0 && len(p.best) == 0 {
+		p.r.Inconclusive("hostile plugin replies: %d of %d (state machine, command, index position, spelling) cells did not run, e.g. %s", missing, len(exp), first)
+	}
 }
